@@ -59,13 +59,8 @@ func (m *model) atEnd(peek bool) []string {
 		}
 		return []string{valEOF} // eof_code, and reset on a source that stays exhausted
 	}
-	if m.peekedEOF && m.eof == "error" {
-		// after a peek delivered end_of_file the next read may deliver it again (ISO) or follow eof_action
-		if !peek {
-			m.delivered = true
-		}
-		return []string{valEOF, errPast}
-	}
+	// a peek that showed end_of_file left the cursor where it was (ISO 8.12.2, 8.13.2: the stream position is
+	// unchanged): the next consuming read is still the one that delivers end_of_file, whatever the eof_action
 	if peek {
 		m.peekedEOF = true
 	} else {
